@@ -15,7 +15,7 @@ def is_code(v):
 
 
 class ArmMachine:
-    def __init__(self, prog, labels, words, first_round, a64, datawords):
+    def __init__(self, prog, labels, words, first_round, a64, datawords, junk=0):
         self.prog, self.labels, self.a64 = prog, labels, a64
         self.T = U64 if a64 else U32
         self.ws = 8 if a64 else 4
@@ -31,7 +31,9 @@ class ArmMachine:
             self.sent[r] = np.full(self.N, (0xA5A50000 + i), self.T)
             self.reg[r] = self.sent[r].copy()
         self.reg["x0" if a64 else "r0"] = STATE
-        self.reg["x1" if a64 else "r1"] = np.full(self.N, first_round, self.T)
+        # AAPCS64: bits above the declared width of a narrow argument (uint8_t first_round) are unspecified, the callee must not rely on them;
+        # AAPCS32 has the caller extend to a full word
+        self.reg["x1" if a64 else "r1"] = np.full(self.N, first_round | (junk if a64 else 0), self.T)
         self.reg["sp"] = SP0
         self.reg["x30" if a64 else "r14"] = RETURN
         self.flags = None
@@ -358,12 +360,12 @@ def run(rep, variant, X, tier):
         return
     words = np.stack(list(X)) if a64 else to_sliced32(list(X))
     total = 0
-    for fr in range(12):
+    for fr, junk in [(f, 0) for f in range(12)] + ([(f, 0xC3A5F00DDEADBE00) for f in range(12)] if a64 else []):
         try:
-            m = ArmMachine(prog, labels, words, fr, a64, data)
+            m = ArmMachine(prog, labels, words, fr, a64, data, junk)
             m.run("ascon_permute")
         except EmuError as e:
-            rep.fail("execution", "first_round=%d: %s" % (fr, e))
+            rep.fail("execution", "first_round=%d%s: %s" % (fr, " (unspecified upper bits of the argument register set)" if junk else "", e))
             continue
         ws = m.ws
         try:
@@ -375,7 +377,7 @@ def run(rep, variant, X, tier):
         exp = np.stack(Y) if a64 else to_sliced32(Y)
         bad = np.nonzero((out != exp).any(axis=0))[0]
         if len(bad):
-            rep.fail("value", "first_round=%d: %d of %d states differ from the specification (first: state index %d)" % (fr, len(bad), X.shape[1], int(bad[0])))
+            rep.fail("value", "first_round=%d%s: %d of %d states differ from the specification (first: state index %d)" % (fr, " with the unspecified upper bits of w1/x1 set (AAPCS64)" if junk else "", len(bad), X.shape[1], int(bad[0])))
         problems = list(m.mem.violations)
         for r, v in m.sent.items():
             cur = m.reg.get(r)
